@@ -28,6 +28,18 @@ def check_defined(rep, repo, rule, roots, label):
             rep.fail(rule, f.where, '%s: a flag has a value on every path to its test' % label,
                      got='%s is only ever assigned constants under a condition; at line %d it holds one of them or nothing at all (UnboundLocalError when the condition never held)' % (name, line),
                      want='a default assignment in front of the conditional ones', construct='flag %s without default in %s' % (name, f.qualname), loc='%s:%d' % (f.relpath, line))
+        for name, line in lints.iterators_consumed_twice(f):
+            n_bad += 1
+            rep.fail(rule, f.where, '%s: a one-shot iterator is consumed once' % label, got='%s is a generator / iterator object; its second consumer (line %d) finds it exhausted and sees nothing' % (name, line),
+                     want='a list, or one expression per consumer', construct='iterator %s consumed twice in %s' % (name, f.qualname), loc='%s:%d' % (f.relpath, line))
+        for line, txt in lints.shared_containers(repo, f):
+            n_bad += 1
+            rep.fail(rule, f.where, '%s: containers that are filled separately are separate objects' % label, got=txt, want='one fresh container per name / per slot',
+                     construct='shared container in %s' % f.qualname, loc='%s:%d' % (f.relpath, line))
+        for line, txt in lints.identity_comparisons(repo, f):
+            n_bad += 1
+            rep.fail(rule, f.where, '%s: values are compared with ==, identity only with None / True / False' % label, got='%s (true only while both happen to be the same object, e.g. ints up to 256)' % txt,
+                     want='==', construct='identity comparison of values in %s' % f.qualname, loc='%s:%d' % (f.relpath, line))
         for line, g, missing, txt in lints.partial_key_caches(repo, f):
             n_bad += 1
             rep.fail(rule, f.where, '%s: a result kept between calls is reused only for the same inputs' % label,
